@@ -36,7 +36,7 @@ ASSUMPTIONS = ['real os.fork() on Linux; sqlite3 3.40 file database in rollback-
                'a hang is never reported as a violation (watchdog => inconclusive) except a provable deadlock: a single-threaded '
                'process blocked in SQLiteProvider.acquire_lock']
 SHARDS = {'quick': 4, 'thorough': 16}
-MIN_EVALS = {'quick': 200, 'thorough': 3000}
+MIN_EVALS = {'quick': 200, 'thorough': 1500}
 CLASS_FLOORS = {'sqlite': 0.3, 'pool:generic': 0.08, 'pool:oracle': 0.08, 'nontrivial': 0.25}
 
 CHILD_FIRST_OPS = [['read'], ['write'], ['getconn'], ['disconnect', 'read'], ['rollback', 'read', 'write'], [['fork', ['read', 'write']]]]
@@ -164,7 +164,7 @@ def run(ctx):
 
     def t_pool(case):
         evaluate(ctx, case)
-    ctx.run_test(t_pool, dict(case=pool_case), max_examples=ctx.scale(20, 120), name='pool_histories')
+    ctx.run_test(t_pool, dict(case=pool_case), max_examples=ctx.scale(20, 80), name='pool_histories')
     if ctx.violation:
         return
 
@@ -181,7 +181,7 @@ def run(ctx):
 
     def t_sqlite(case):
         evaluate(ctx, case)
-    ctx.run_test(t_sqlite, dict(case=sqlite_case), max_examples=ctx.scale(15, 130), name='sqlite_histories')
+    ctx.run_test(t_sqlite, dict(case=sqlite_case), max_examples=ctx.scale(15, 90), name='sqlite_histories')
 
 
 def replay(case):
